@@ -218,6 +218,9 @@ theorem tb_createCode (o l : Nat) : TB (createCode o l) (fun c => c.length ≤ I
     exact tb_memSlice _ _
   · exact tb_pure (Nat.zero_le _)
 
+/-- an action legacy code hands out: calldata / initcode a Rust `Bytes`, never EOFCREATE -/
+def ActOk2 (a : Action) : Prop := dataLen a ≤ ISZ ∧ ∀ i, a ≠ .eofCreate i
+
 /-- the common tail of the four call instructions -/
 theorem tb_callPost (r : HostResp) (ie ht : Bool) (lgl : Nat) (adj : Nat → Nat) (mk : Nat → IState → CallInputs)
     (hmk : ∀ g s, (mk g s).input.length ≤ ISZ) :
@@ -226,14 +229,14 @@ theorem tb_callPost (r : HostResp) (ie ht : Bool) (lgl : Nat) (adj : Nat → Nat
         let gasLimit ← calcCallGas r ie ht lgl
         gasCharge gasLimit
         let s ← getS
-        pure (Action.call (mk (adj gasLimit) s)) : M Action) (fun a => dataLen a ≤ ISZ) := by
+        pure (Action.call (mk (adj gasLimit) s)) : M Action) (fun a => ActOk2 a) := by
   refine tb_bind (tb_of_bp (bp_requireSome _)) (fun _ _ => ?_)
   refine tb_bind (tb_of_bp (bp_calcCallGas _ _ _ _)) (fun g _ => ?_)
   refine tb_bind (tb_of_bp (bp_gasCharge _)) (fun _ _ => ?_)
   refine tb_bind (tb_of_bp bp_getS) (fun s _ => ?_)
-  exact tb_pure (hmk _ _)
+  exact tb_pure ⟨hmk _ _, fun i hx => nomatch hx⟩
 
-theorem tb_createI (c2 : Bool) : TB (createI c2) (fun a => dataLen a ≤ ISZ) := by
+theorem tb_createI (c2 : Bool) : TB (createI c2) (fun a => ActOk2 a) := by
   unfold createI
   refine tb_bind (tb_of_bp bp_requireNonStatic) (fun _ _ => ?_)
   refine tb_bind (tb_of_bp (bp_checkWhen _ _)) (fun _ _ => ?_)
@@ -246,6 +249,6 @@ theorem tb_createI (c2 : Bool) : TB (createI c2) (fun a => dataLen a ≤ ISZ) :=
   refine tb_bind (tb_of_bp bp_getS) (fun s _ => ?_)
   refine tb_bind (tb_of_bp (bp_gasCharge _)) (fun _ _ => ?_)
   refine tb_bind (tb_of_bp bp_getS) (fun s2 _ => ?_)
-  exact tb_pure hc
+  exact tb_pure ⟨hc, fun i hx => nomatch hx⟩
 
 end Revm.Proofs.EvmLink
